@@ -36,6 +36,8 @@ def trace(name):
     """A bundled trace as an (n,2) array, or None when empty in this sandbox."""
     if name not in _traces:
         path = os.path.join(boot.REPO, 'traces', name)
+        if not os.path.exists(path):        # scratch copies (KNEEMON_SRC) carry only src/
+            path = os.path.join('/repo', 'traces', name)
         arr = None
         try:
             if os.path.getsize(path) > 0:
